@@ -6,7 +6,7 @@ set -u
 id=$1; patch=$2; demo=$3; pkg=$4; pat=$5
 wt=/tmp/sv-$id
 git -C /repo worktree remove --force $wt >/dev/null 2>&1
-git -C /repo worktree add -q --detach $wt HEAD || exit 2
+git -C /repo worktree add -q --detach $wt ${BASE:-HEAD} || exit 2
 cd $wt
 git apply "$patch" || { echo "PATCH DOES NOT APPLY"; exit 2; }
 go build ./... || { echo "BUILD FAILS"; exit 1; }
